@@ -17,14 +17,15 @@
 (*    Primary ::= num | "(" Expr ")"                                        *)
 (* x / 0 = 0.                                                               *)
 (***************************************************************************)
-EXTENDS Rational
+EXTENDS Values
 
 SuffixExp(s) ==
   CASE s = ""  -> 0  [] s = "k" -> 3  [] s = "M" -> 6  [] s = "G" -> 9 [] s = "T" -> 12
     [] s = "P" -> 15 [] s = "Z" -> 18 [] s = "Y" -> 21
 \* The statement lists k, M, G, T, P, Z, Y and says "the corresponding power of 1000":
 \* the i-th letter of that list scales by 1000^i (so Z = 10^18, Y = 10^21).
-LitValue(t) == Norm(<<t.m[1], t.m[2], SuffixExp(t.sfx)>>)
+\* a literal token either spells a mantissa with a suffix or (after variable substitution) carries a value
+LitValue(t) == IF "q" \in DOMAIN t THEN t.q ELSE Norm(<<t.m[1], t.m[2], SuffixExp(t.sfx)>>)
 
 Fail == [ok |-> FALSE, v |-> Zero, i |-> 0]
 IsOp(toks, i, S) == i <= Len(toks) /\ toks[i].k = "op" /\ toks[i].c \in S
@@ -68,6 +69,7 @@ DateLike(toks) ==
   \E i \in 1..(Len(toks) - 4) :
      /\ IsNumTok(toks, i) /\ IsNumTok(toks, i + 2) /\ IsNumTok(toks, i + 4)
      /\ IsOp(toks, i + 1, {"/"}) /\ IsOp(toks, i + 3, {"/"})
+     /\ "m" \in DOMAIN toks[i] /\ "m" \in DOMAIN toks[i + 2]
      /\ toks[i].sfx = "" /\ toks[i + 2].sfx = ""
      /\ Trunc(toks[i].m) \in 1..31 /\ Trunc(toks[i + 2].m) \in 1..12
 
